@@ -583,6 +583,14 @@ def ktable_terms(ix, R, kt, pfx='7'):
         if not fl.tab.equal(lp.iter_rf[0], b['mu']):
             why.append('angle loop over %s' % fmt(fl, lp.iter_rf[0]))
         tmp = got.get('tau')
+        # the shape this rule reads: the per-angle column is built in a scratch buffer of its own (re-zeroed for every
+        # angle) and then added to the surface row of that angle; another layout (one row per angle in a 2-D buffer,
+        # added after the loop ...) is not decided here
+        ta_ = atom_of(fl, tmp) if tmp is not None else None
+        if ta_ is None or ta_.head not in ('alloc', 'reset', 'fresh') and not [x for x in fl.of('reset') if fl.tab.equal(x.new, tmp)] \
+                and (ta_.head == 'idx'):
+            raise AnalysisError('the per-angle molecular column is not written to a scratch buffer of its own: %s' % (
+                fmt(fl, tmp)[:100] if tmp is not None else None))
         rs = [x for x in fl.of('reset') if tmp is not None and fl.tab.equal(x.new, tmp)]
         if not rs or rs[0].loops != (lp,) or rs[0].value.const() != 0:
             why.append('per-angle buffer is not zeroed inside the angle loop')
